@@ -15,10 +15,12 @@ CONSTANTS
  L = 3
  CbBase = 100
  WClose = 1
+ Mut = "none"
  WFar = 2
  NConf <- Conf12
  Universe = "chain"
  MaxBlocks = 4
+ MaxProps = 1
  MaxForks = 1
  MaxNotes = 1
  Works = {1, 3}
